@@ -22,6 +22,7 @@ import (
 	"strconv"
 	"strings"
 	"sync"
+	"syscall"
 	"time"
 )
 
@@ -263,7 +264,16 @@ func splitmix(x uint64) uint64 {
 	return z ^ (z >> 31)
 }
 
+// stallLimit: how long one case may run (real time) before the worker is taken for stalled.
+func stallLimit() time.Duration {
+	if v, err := time.ParseDuration(os.Getenv("VERIF_STALL_LIMIT")); err == nil && v > 0 {
+		return v
+	}
+	return 150 * time.Second
+}
+
 type workerResult struct {
+	stalled   bool
 	idx       int
 	rapidSeed uint64
 	stats     *WorkerStats
@@ -290,6 +300,19 @@ func runWorker(bin, id string, idx int, rapidSeed uint64, checks int, dir string
 	cmd.Env = append(os.Environ(), "VERIF_CHECK="+id, "VERIF_OUT="+out, "GOMAXPROCS=1",
 		"VERIF_TESTDATA="+filepath.Join(verifDir, "testdata"), "VERIF_KNOWN="+filepath.Join(verifDir, "KNOWN_FINDINGS.txt"))
 	cmd.Env = append(cmd.Env, extraEnv...)
+	// the worker announces every case before it runs it (one small file): the orchestrator
+	// re-runs the announced case when a worker dies, and watches the file's age for stalls
+	announce := ""
+	for _, e := range cmd.Env {
+		if strings.HasPrefix(e, "VERIF_ANNOUNCE=") {
+			announce = strings.TrimPrefix(e, "VERIF_ANNOUNCE=")
+		}
+	}
+	if announce == "" {
+		announce = filepath.Join(dir, "announce")
+		cmd.Env = append(cmd.Env, "VERIF_ANNOUNCE="+announce)
+	}
+	os.Remove(announce)
 	var buf bytes.Buffer
 	cmd.Stdout = &buf
 	cmd.Stderr = &buf
@@ -300,6 +323,35 @@ func runWorker(bin, id string, idx int, rapidSeed uint64, checks int, dir string
 	}
 	done := make(chan error, 1)
 	go func() { done <- cmd.Wait() }()
+	// stall monitor: lock waits count as blocked in the worker's runtime, so what can still
+	// keep a case from ending is a goroutine of the code under test that never stops running
+	// (a walk over a cyclic structure, a retry loop); on the worker's single P, without time
+	// slices, nothing else in that process runs then.  When one case has been running for
+	// stallLimit the worker gets SIGQUIT: the Go runtime prints every goroutine and exits,
+	// and the dump decides (spinningInSUT) whether this was the system under test.
+	quit := make(chan struct{})
+	stalled := make(chan struct{}, 1)
+	started := time.Now()
+	go func() {
+		tk := time.NewTicker(5 * time.Second)
+		defer tk.Stop()
+		for {
+			select {
+			case <-quit:
+				return
+			case <-tk.C:
+				ref := started
+				if fi, err := os.Stat(announce); err == nil {
+					ref = fi.ModTime()
+				}
+				if time.Since(ref) > stallLimit() {
+					stalled <- struct{}{}
+					cmd.Process.Signal(syscall.SIGQUIT)
+					return
+				}
+			}
+		}
+	}()
 	select {
 	case err := <-done:
 		res.err = err
@@ -308,6 +360,13 @@ func runWorker(bin, id string, idx int, rapidSeed uint64, checks int, dir string
 		<-done
 		res.timedOut = true
 		res.err = fmt.Errorf("watchdog: worker exceeded %v", timeout)
+	}
+	close(quit)
+	select {
+	case <-stalled:
+		res.stalled = true
+		res.err = fmt.Errorf("stall monitor: one case ran for more than %v, worker ended with SIGQUIT", stallLimit())
+	default:
 	}
 	res.output = buf.String()
 	if b, err := os.ReadFile(out); err == nil {
@@ -466,7 +525,7 @@ func cmdCheck(id string, tier string, seed int64, keep bool) int {
 	for _, r := range results {
 		if r.stats == nil {
 			if v := confirmDeath(id, seed, bin, scratch, r); v != "" {
-				fmt.Printf("VIOLATION property=%s replay=%s\n  class=process_death the worker process was killed by the system under test (see death_output in the replay file)\n", id, v)
+				fmt.Printf("VIOLATION property=%s replay=%s\n  class=process_death the worker process was killed by the system under test, or had to be ended because a goroutine of it never stopped running (see death_output in the replay file)\n", id, v)
 				violations++
 				exit = 1
 				continue
